@@ -273,6 +273,7 @@ func checkC19(c *Ctx, r *Report) {
 	r.rule("C19.R4", "the connection of a request that gives up is closed on every path (an abandoned request's answer cannot be delivered later; shared with C18.R1)", 2)
 	r.rule("C19.R6", "a client function cannot wait for ever: every blocking select has a time-out case, and no bare receive waits on a channel that lives longer than the call (a per-subscriber timer that already fired and was consumed never delivers again)", 4)
 	r.rule("C19.R7", "the exchange with a peer runs under the subscriber's lock: consistent lockset of the per-subscriber state, lock held to the end of the operation (shared with C09.R1/R2) - otherwise two operations of one subscriber take each other's answers from the shared channel", 10)
+	r.rule("C19.R8", "no goroutine is started on the request path (shared with C18.R2): an exchange that goes on in an abandoned goroutine keeps receiving from the subscriber's channel and takes the answer of the next request", 1)
 	r.rule("C19.R5", "each client waits on, and empties before it sends, the very channel its own answer handler delivers into", 6)
 	r.rule("C19.R3", "the per-subscriber answer channel has one kind of receiver: the client function that sent the request", 2)
 
@@ -347,6 +348,7 @@ func checkC19(c *Ctx, r *Report) {
 	c19SingleConsumer(c, r, "C19.R3")
 	c19OwnChannel(c, r, "C19.R5")
 	c19BoundedWaits(c, r, "C19.R6")
+	r.shareFrom(c, checkC18, map[string]string{"C18.R2": "C19.R8"})
 	r.shareFrom(c, checkC09, map[string]string{"C09.R1": "C19.R7", "C09.R2": "C19.R7"})
 
 	// R4: as long as answers are not correlated (R1), what keeps the answer of a
